@@ -241,3 +241,278 @@ def monitor(ops, outs, pid):
             if t[0] == "release" and conn_open and not disc_ev:
                 fails.append((i, "released-without-disconnect-notification"))
     return fails
+
+
+# ------------------------------------------------------------------------------------------
+# XEP-0198 monitors (C04 outbound, C05 inbound)
+
+STANZA_ITEMS = ("user", "raw")
+M32 = 1 << 32
+
+
+def seq32(a, n):
+    return [(a + k) % M32 for k in range(n)]
+NS_SM_B = b"urn:xmpp:sm:3"
+
+
+class TopLevel:
+    """incremental scan of what the server sent on one stream: complete depth-1 elements, in
+    order, as (name, attrs-bytes, is_sm_namespace).  Built for the generator's XML (no CDATA,
+    no '>' inside attribute values); anything it does not understand switches it off."""
+
+    TAG = re.compile(rb"<(\?[^>]*\?|/?[A-Za-z_:][^\s/>]*)([^>]*?)(/?)>", re.S)
+
+    def __init__(self):
+        self.reset()
+
+    def reset(self):
+        self.buf = b""
+        self.depth = 0          # 0 = before the stream header
+        self.sane = True
+        self.cur = None
+        self.closed = False
+
+    def feed(self, data):
+        out = []
+        if not self.sane or self.closed:
+            return out
+        self.buf += data
+        while True:
+            i = self.buf.find(b"<")
+            if i < 0:
+                self.buf = b""
+                return out
+            m = self.TAG.match(self.buf, i)
+            if not m:
+                if b">" in self.buf[i:]:
+                    self.sane = False
+                self.buf = self.buf[i:]
+                return out
+            name, attrs, selfclose = m.group(1), m.group(2), m.group(3) == b"/"
+            self.buf = self.buf[m.end():]
+            if name.startswith(b"?"):
+                continue
+            if name.startswith(b"/"):
+                if self.depth == 1:
+                    self.closed = True       # </stream:stream>
+                    return out
+                self.depth -= 1
+                if self.depth == 1 and self.cur is not None:
+                    out.append(self.cur)
+                    self.cur = None
+                if self.depth < 1:
+                    self.sane = False
+                    return out
+                continue
+            if self.depth == 0:
+                if selfclose:
+                    self.sane = False
+                    return out
+                self.depth = 1
+                continue
+            if self.depth == 1:
+                el = (name, attrs, NS_SM_B in attrs)
+                if selfclose:
+                    out.append(el)
+                else:
+                    self.cur = el
+                    self.depth = 2
+                continue
+            if not selfclose:
+                self.depth += 1
+
+
+def _attr(attrs, key):
+    m = re.search(rb"\b" + key + rb"\s*=\s*(['\"])(.*?)\1", attrs, re.S)
+    return m.group(2) if m else None
+
+
+def pe_events(extra):
+    """(name, attrs-dict, is_sm) of the stanzas the real parser delivered during one op"""
+    evs = []
+    for l in extra or []:
+        if not l.startswith("pe stanza ("):
+            continue
+        tok = l[len("pe stanza ("):].split(" ")
+        try:
+            name = bytes.fromhex(tok[0])
+            ns = b"" if tok[1] == "-" else bytes.fromhex(tok[1])
+            attrs = {}
+            a = tok[2].rstrip(")") if len(tok) > 2 else "-"
+            if a != "-":
+                for kv in a.split(";"):
+                    k, _, v = kv.partition("=")
+                    attrs[bytes.fromhex(k)] = bytes.fromhex(v)
+        except ValueError:
+            continue
+        evs.append((name, attrs, ns == NS_SM_B))
+    return evs
+
+
+def monitor_sm(ops, outs, pid, extras=None):
+    """C04: numbering / retention / release / retransmission of outbound stanzas;
+       C05: the inbound count reported in <a/> and <resume/>, one <a/> per <r/>."""
+    fails = []
+    scan = TopLevel()
+    log = {}                 # number -> item text, for the current logical SM session
+    prev = None              # previous parsed line
+    expect_resend = []       # item texts that must be the next counted writes, in order
+    inbound = 0              # non-SM stanzas dispatched on the logical session since <enabled/>
+    active_in = False        # the client accepted <enabled/> or <resumed/> on this logical session
+    pending_a = []           # h values the <a/> answers still to be written must carry, in order
+    last_inbound_at_loss = None
+    conn_open = False
+    active_conn = False      # <enabled/> or <resumed/> accepted on the current connection
+    counting = False         # inbound stanzas count: <enabled/> or <resumed/> seen on this connection
+    poisoned = False         # the server resumed with an h it cannot have counted: numbers are void
+    for i, (op, out) in enumerate(zip(ops, outs)):
+        t = op.split(" ")
+        ln = parse_line(out)
+        if ln is None or ln["sent"] is None:
+            prev = ln if ln and ln["sent"] is not None else prev
+            if t[0] == "new":
+                log, expect_resend, inbound, active_in, pending_a, prev, poisoned = {}, [], 0, False, [], None, False
+            continue
+        if t[0] == "new":
+            log, expect_resend, inbound, active_in, pending_a, prev, poisoned = {}, [], 0, False, [], None, False
+        if t[0] == "connect" and ln["res"] == "rc 0":
+            scan.reset()
+            pending_a = []
+            conn_open = True
+            active_conn = False
+            counting = False
+        en_before = prev is not None and prev["smf"] is not None and prev["smf"][1] == "1"
+        sent_before = prev["sent"] if prev else 0
+        smq_before = prev["smq"] if prev else []
+        # ---- what was written during this op (an op writes before it reads)
+        counted = [it for it in ln["tx"] if it.split(":")[0].split("/")[0] in STANZA_ITEMS]
+        n_sent = sent_before
+        for it in ln["tx"]:
+            k = it.split("/")[0].split(":")
+            if k[0] in STANZA_ITEMS and en_before and active_conn:
+                txt = it.rsplit("/", 1)[0]
+                if pid == "C04":
+                    if expect_resend:
+                        want = expect_resend.pop(0)
+                        if want != txt:
+                            fails.append((i, "retransmission-order want %s got %s" % (want[:30], txt[:30])))
+                            expect_resend = []
+                log[n_sent] = txt
+                n_sent = (n_sent + 1) % M32
+            if k[0] == "a" and pid == "C05":
+                if not pending_a:
+                    fails.append((i, "unrequested-ack"))
+                else:
+                    want = pending_a.pop(0)
+                    if want is not None and int(k[1]) != want % (1 << 32):
+                        fails.append((i, "ack-h want %d got %s" % (want, k[1])))
+            if k[0] == "resume" and pid == "C05":
+                if last_inbound_at_loss is not None and int(k[2]) != last_inbound_at_loss % (1 << 32):
+                    fails.append((i, "resume-h want %d got %s" % (last_inbound_at_loss, k[2])))
+        # ---- what was read during this op
+        sm_event = None
+        n_ev = 0
+        if t[0] == "rx" and conn_open and ln["st"] != "d" or (t[0] == "rx" and conn_open):
+            data = unhx(t[1]) or b""
+            if b"<?xml" in data or b"<stream:stream" in data:
+                # a new stream header: the client reset its parser before reading it
+                j = data.find(b"<?xml") if b"<?xml" in data else data.find(b"<stream:stream")
+                for el in scan.feed(data[:j]):
+                    pass
+                scan.reset()
+                data = data[j:]
+            if extras is not None:
+                evl = pe_events(extras[i] if i < len(extras) else [])
+                geth = lambda at: at.get(b"h")
+            else:
+                evl = scan.feed(data)
+                geth = lambda at: _attr(at, b"h")
+            n_ev = len(evl)
+            for (name, attrs, is_sm) in evl:
+                if is_sm and name in (b"enabled", b"resumed", b"failed", b"a", b"r"):
+                    if name == b"r":
+                        pending_a.append(inbound if counting else None)
+                    elif name == b"a":
+                        sm_event = ("a", geth(attrs))
+                    else:
+                        sm_event = (name.decode(), geth(attrs))
+                        # (only answers to what the client asked for count)
+                        if name == b"enabled" and en_before and not counting:
+                            inbound = 0
+                            active_in = counting = True
+                        elif name == b"failed":
+                            active_in = counting = False
+                        elif name == b"resumed" and prev and prev["smf"] and prev["smf"][3] == "1" and not counting:
+                            active_in = counting = True
+                elif not is_sm and counting:
+                    inbound += 1
+        en_after = ln["smf"] is not None and ln["smf"][1] == "1"
+        if pid == "C05" and counting and en_after and not sm_event and (extras is not None or scan.sane) \
+                and ln["handled"] is not None:
+            if ln["handled"] != inbound % (1 << 32) and ln["st"] != "d":
+                fails.append((i, "handled-count want %d got %d" % (inbound, ln["handled"])))
+                inbound = ln["handled"]
+        if pid == "C04" and poisoned:
+            expect_resend = []
+        if pid == "C04" and not poisoned:
+            smq = ln["smq"]
+            # numbers retained are consecutive and end at sent-1
+            if smq and active_conn and sm_event is None and smq != seq32(ln["sent"] - len(smq), len(smq)):
+                fails.append((i, "retained-not-contiguous sent %d q %s" % (ln["sent"], smq[:6])))
+            if en_before and en_after and sm_event is None and active_conn:
+                # counting: exactly the stanzas written
+                if ln["sent"] != n_sent:
+                    fails.append((i, "miscounted sent want %d got %d" % (n_sent, ln["sent"])))
+                # retention: everything counted and not acknowledged is still there
+                newly = seq32(sent_before, (n_sent - sent_before) % M32)
+                want = smq_before + newly
+                if smq != want:
+                    fails.append((i, "retained-lost want %s got %s" % (want[:6], smq[:6])))
+            if sm_event and sm_event[0] == "a" and en_before and en_after and active_conn:
+                hv = sm_event[1]
+                have = smq_before + seq32(sent_before, (n_sent - sent_before) % M32)
+                # an honest acknowledgement: h is one of the retained numbers or the next number
+                if hv is not None and hv.isdigit() and (int(hv) in have or int(hv) == n_sent) and len(hv) < 10:
+                    want = have[have.index(int(hv)):] if int(hv) in have else []
+                    if smq != want:
+                        fails.append((i, "ack-release want %s got %s" % (want[:6], smq[:6])))
+            if sm_event and sm_event[0] == "resumed" and prev and prev["smf"][3] == "1" and en_after:
+                hv = sm_event[1]
+                if hv is not None and hv.isdigit() and len(hv) < 10 and ln["st"] != "d" and \
+                        (int(hv) in smq_before or int(hv) == sent_before):
+                    k0 = smq_before.index(int(hv)) if int(hv) in smq_before else len(smq_before)
+                    expect_resend = [log[n] for n in smq_before[k0:] if n in log]
+                    if ln["sent"] != int(hv):
+                        fails.append((i, "resumed-count want %s got %d" % (hv.decode(), ln["sent"])))
+                else:
+                    poisoned = True
+        if pid == "C04" and not poisoned and sm_event and sm_event[0] == "failed" and prev and prev["smf"][3] == "1":
+            hv = sm_event[1]
+            inf = b"item-not-found" in (unhx(t[1]) or b"")
+            if inf and hv is not None and hv.isdigit() and len(hv) < 10 and \
+                    (int(hv) in smq_before or int(hv) == sent_before):
+                k0 = smq_before.index(int(hv)) if int(hv) in smq_before else len(smq_before)
+                if ln["smq"] != smq_before[k0:]:
+                    fails.append((i, "failed-release want %s got %s" % (smq_before[k0:][:6], ln["smq"][:6])))
+            elif hv is None and ln["smq"] != smq_before and b"item-not-found" in (unhx(t[1]) or b""):
+                fails.append((i, "failed-lost want %s got %s" % (smq_before[:6], ln["smq"][:6])))
+        if pid == "C04" and sm_event and sm_event[0] == "enabled" and en_after and ln["st"] != "d":
+            # a new logical session: what was still retained is sent again, first, in order
+            expect_resend = [] if poisoned else [log[n] for n in smq_before if n in log]
+            log = {}
+            poisoned = False
+        if sm_event and sm_event[0] in ("enabled", "resumed") and en_after:
+            active_conn = True
+        if ln["st"] == "d" and conn_open:
+            conn_open = False
+            active_conn = False
+            # (events after the one that made the client disconnect were not dispatched)
+            last_inbound_at_loss = inbound if active_in and n_ev <= 1 else None
+            if n_ev > 1 and ln["handled"] is not None:
+                inbound = ln["handled"]
+            pending_a = []
+            if not (ln["smf"] and ln["smf"][2] == "1"):
+                # not resumable: a later session starts from scratch
+                expect_resend = []
+        prev = ln
+    return fails
